@@ -98,6 +98,7 @@ struct sim_opts {
 bool sim_boot(const struct sim_opts *opts);
 /* let the daemon run until it is quiescent again (no deliverable event) or has exited */
 void sim_settle(void);
+int sim_ready_count(void); /* descriptors that would be reported by the next epoll_wait */
 bool sim_daemon_exited(void);
 int sim_daemon_exit_code(void);
 /* deliver SIGTERM (calls the captured handler, epoll_wait returns EINTR) - call sim_settle() afterwards */
